@@ -513,7 +513,7 @@ def umat_P(umat, call):
 
 
 
-@contract("C09", "material_curves_incompressible", configs=[dict(curve=c, statevars=s) for c in ("uniaxial", "planar", "biaxial") for s in (False, True)])
+@contract("C09", "material_curves_incompressible", configs=[dict(curve=c, statevars=s) for c in ("uniaxial", "planar", "biaxial") for s in (False, True)] + [dict(curve=c, statevars=s, stretches="argument") for c in ("uniaxial", "planar", "biaxial") for s in (False, True)])
 def material_curves_incompressible(vk, cfg):
     """ViewMaterialIncompressible: isochoric kinematics diag(l1, l2, l3) with l1 l2 l3 == 1 and the normal
     force P11 - l3/l1 P33 (hydrostatic pressure eliminated through the stress-free third direction)"""
@@ -547,7 +547,16 @@ def material_curves_incompressible(vk, cfg):
 
     z0 = ring.symarray("z0", (1, 1, 1)) if cfg["statevars"] else None
     vm = VMI(U(), ux=lam, ps=lam, bx=lam, statevars=z0)
-    st, force, label = getattr(vm, curve)()
+    call_kw = {}
+    if cfg.get("stretches") == "argument":
+        # "stretches at which the forces are evaluated; if None, the stretches from initialization are used": stretches
+        # handed to the curve method are the ones used, those of the constructor (all three different) are not
+        others = {k: ring.lift(np.array(v)) for k, v in (("ux", [1.1, 1.2]), ("ps", [1.15, 1.25]), ("bx", [1.05, 1.35]))}
+        vm = VMI(U(), statevars=z0, **others)
+        call_kw = dict(stretches=lam)
+    st, force, label = getattr(vm, curve)(**call_kw)
+    if cfg.get("stretches") == "argument":
+        vk.ensures_true("stretches=: the stretches of the constructor are left as they were", all(getattr(vm, k) is v for k, v in others.items()), "ux / ps / bx attributes", backend="exec")
     l2, l3 = {"uniaxial": (lam ** Fraction(-1, 2), lam ** Fraction(-1, 2)), "planar": (0 * lam + 1, 1 / lam), "biaxial": (lam, 1 / (lam * lam))}[curve]
     Fspec = np.zeros((3, 3, 1, 2), dtype=object)
     Fspec[...] = LP()
